@@ -413,6 +413,15 @@ def run(ctx):
               found=str(dof_writes), detail=str(dof_writes))
     # missing joint -> Err via ok_or_else + ?
     ok = any(cname(callee_name(t2)) in ('Option::ok_or_else', 'Option::ok_or') and 'HashMap::get' in show(pp.op_term(t2['args'][0], (bi, None)), maxdepth=3) for bi, t2 in pp.calls())
+    if not ok:
+        # ... or written out: `let Some(joint) = joint_map.get(name) else { return Err(..) }` - an Err returned on the None edge of the lookup
+        for t_, d_, rb_ in pp.return_values():
+            t_ = strip(t_)
+            if isinstance(t_, tuple) and t_[0] == 'agg' and 'Err' in str(t_[1]) and d_:
+                for g, k, sw in pp.guard_terms(d_[1]):
+                    g = strip(g)
+                    if isinstance(g, tuple) and g[0] == 'discr' and k == 0 and isinstance(strip(g[1]), tuple) and strip(g[1])[0] == 'call' and cname(strip(g[1])[1]) == 'HashMap::get':
+                        ok = True
     ctx.check(ok, 'R20.4', 'missing-joint', pp.where(0), pp.path, 'a missing joint must become an error value')
 
     # ---- R20.5
